@@ -69,7 +69,10 @@ func sutHash(s string) uint64 {
 }
 
 // adversarialNames returns n names of which groups share `bits` low hash bits.
-func adversarialNames(rng *rand.Rand, prefix string, n, bits int) []string {
+// used24 holds the low 24 hash bits of every name of the case so far (all prefixes): two names of one collection that
+// share 24+ low bits make the emulator's table grow to hundreds of MiB or fail (the known dictionary finding, C04),
+// which is not this check's subject.
+func adversarialNames(rng *rand.Rand, prefix string, n, bits int, used24 map[uint64]bool) []string {
 	mask := uint64(1)<<uint(bits) - 1
 	byLow := map[uint64][]string{}
 	var out []string
@@ -77,15 +80,10 @@ func adversarialNames(rng *rand.Rand, prefix string, n, bits int) []string {
 		name := fmt.Sprintf("%s%x", prefix, rng.Int63())
 		h := sutHash(name)
 		low := h & mask
-		tooClose := false
-		for _, other := range byLow[low] {
-			if (sutHash(other)^h)&(1<<26-1) == 0 {
-				tooClose = true // 26+ shared bits: the emulator's table would need GiBs (the known dictionary finding, C04)
-			}
-		}
-		if tooClose {
+		if used24[h&(1<<24-1)] {
 			continue
 		}
+		used24[h&(1<<24-1)] = true
 		byLow[low] = append(byLow[low], name)
 		if len(byLow[low]) == 2 {
 			out = append(out, byLow[low]...)
@@ -154,7 +152,7 @@ func c17Run(r *verdict.Run, e *emu, cs c17Case, rng *rand.Rand) {
 	}
 	names := func(prefix string, n int) []string {
 		if cs.adverse > 0 && n >= 2 {
-			return adversarialNames(rng, prefix, n, cs.adverse)
+			return adversarialNames(rng, prefix, n, cs.adverse, used24)
 		}
 		out := make([]string, n)
 		for i := range out {
@@ -445,7 +443,15 @@ func c17Run(r *verdict.Run, e *emu, cs c17Case, rng *rand.Rand) {
 		}
 		args = append(args, "COUNT", strconv.Itoa(cs.count))
 		if cs.typ != "" {
-			args = append(args, "TYPE", cs.typ)
+			// the type name in any spelling (option values of TYPE are case-insensitive), changing from call to call
+			spelled := cs.typ
+			switch calls % 3 {
+			case 1:
+				spelled = strings.ToUpper(cs.typ)
+			case 2:
+				spelled = strings.ToUpper(cs.typ[:1]) + cs.typ[1:]
+			}
+			args = append(args, []string{"TYPE", "type", "Type"}[calls%3], spelled)
 		}
 		v, err := cn.Do(args...)
 		calls++
